@@ -199,7 +199,10 @@ pub fn run_solver_case(case: &SolverCase) -> SolverCaseRun {
                 .filter(|(_, (cfg, res))| !judge::interrupted(res) && cfg.gap.allowed() == 0.0)
                 .filter_map(|(i, (_, res))| match &res.outcome {
                     Outcome::Sol(s) if s.label == solvers::Label::Optimal => {
-                        Some((i, "Optimal".to_string(), Some(s.value)))
+                        // compare on the model's own objective: the builder cannot carry the
+                        // constant of a feasibility objective
+                        let adjust = m.offset - m.offset_as_seen_by(case.runs[i].entry.is_builder());
+                        Some((i, "Optimal".to_string(), Some(s.value + adjust)))
                     }
                     Outcome::Err {
                         kind: solvers::ErrKind::Infeasible,
